@@ -3,4 +3,4 @@ CONSTANTS Scenarios <- Scn
 INVARIANTS EachIndexExactlyOnce NoNextAfterTerminal NoOverlapBeyondPolicy EndHasTerminal
 PROPERTY NoNextAfterTerminalA
 ACTION_CONSTRAINT Export
-CHECK_DEADLOCK FALSE
+CHECK_DEADLOCK TRUE
